@@ -9,13 +9,102 @@ the calls), plus random failure subsets over the whole behaviour; the observatio
 TLC against FaultTrace.tla (postcondition form, evaluated on the abstract state Document!Step gives
 for the fault-free prefix): reported, overflowed(), well formed, values outside the modified path
 unchanged, references outside it still designate their value, nothing allocated after clear(), the
-document works after clear(), nothing leaked or released through a foreign allocator."""
+document works after clear(), nothing leaked or released through a foreign allocator.
+Deserializers: inputs whose fault-free result JsonReader.tla / MsgPack.tla computed (valid and malformed
+JSON texts, MessagePack encodings, strings that repeat and then grow) are read with a failure at every
+allocator call; the events ("rfault") are judged by the same FaultTrace.tla."""
 import os
 from concurrent.futures import ThreadPoolExecutor
+
+import random
 
 import vlib
 from checks import doccommon as dc
 from checks import doctrace, poolmc
+from checks import readercommon as rc
+from checks import readergen as rg
+from checks import readerchecks as rk
+from checks import msgpackcommon as mc
+from checks import msgpackgen as mg
+
+
+def reader_faults(chk, wd, quick):
+    """deserializeJson / deserializeMsgPack under a failure at every allocator call."""
+    rng = random.Random(vlib.seed() + 505)
+    D = rc.OPTS_DEFAULT
+    variants = [("def", D, [], False), ("small", D, ["ARDUINOJSON_STRING_LENGTH_SIZE=1", "ARDUINOJSON_SLOT_ID_SIZE=1"], False)]
+    bins = rk.build_readers(variants)
+    nj, nm = (220, 260) if quick else (3000, 3000)
+    wants = []
+    jl = rg.gen_valid(rng, D, nj, wants)
+    jw = dict(enumerate(wants))
+    jl += rg.gen_mutants(rng, D, nj // 3)
+    jl += [dict(l, f=rg.rand_filter(rng)) for l in rg.gen_valid(rng, D, nj // 4, [])]
+    r, jcases, _ = rc.feed_cases(chk, "rfault-json", wd, jl, jw)
+    chk.add_tlc(r)
+    wants = []
+    ml = mg.gen_string_reuse(rng, nm // 2, wants)
+    ml += mg.gen_valid(rng, nm // 2, wants)
+    mw = dict(enumerate(wants))
+    ml += mg.gen_prefixes_and_corruptions(rng, nm // 4)
+    r, mcases, _ = mc.feed_cases(chk, "rfault-msgpack", wd, ml, mw)
+    chk.add_tlc(r)
+    events = fired = 0
+    jobs = []
+    for cases in (jcases, mcases):
+        parts = vlib.split_file(cases, 8)
+        os.remove(cases)
+        for pi, part in enumerate(parts):
+            for label in ("def", "small"):
+                if label == "small" and cases is jcases and pi % 2:
+                    continue
+                out = os.path.join(wd, f"rfault-{os.path.basename(part)}-{label}.ndjson")
+                jobs.append((label, part, out, [bins[label], part, str(vlib.seed()), "--faults", out,
+                                                "40" if quick else "400"]))
+    res = vlib.run_parallel([j[3] for j in jobs], timeout=1500)
+    good = []
+    for (rcode, txt), (label, part, out, cmd) in zip(res, jobs):
+        summ = [l for l in txt.splitlines() if l.startswith("SUMMARY")]
+        if rcode != 0 or not summ:
+            crash = [l for l in txt.splitlines() if l.startswith("CRASH")]
+            case = None
+            if crash:
+                try:
+                    idx = int(crash[0].split("idx=")[1].split()[0])
+                    with open(part) as f:
+                        for i, l in enumerate(f):
+                            if i == idx:
+                                case = l.strip()
+                except (ValueError, IndexError):
+                    pass
+            chk.violation(f"reader-faults/{label}: deserialization under an allocation failure crashed or aborted "
+                          f"rc={rcode}: {(crash[0] if crash else '')} {txt[-1500:]}", case)
+            continue
+        kv = dict(x.split("=") for x in summ[0].split()[1:])
+        events += int(kv["events"])
+        fired += int(kv["fired"])
+        good.append((label, out))
+
+    def validate(item):
+        label, out = item
+        return item, doctrace.validate_trace(chk, out, os.path.join(wd, "v-" + os.path.basename(out)),
+                                             f"reader-faults/{label}", module="FaultTrace", timeout=1500)
+    with ThreadPoolExecutor(max_workers=8) as ex:
+        for (label, out), (ok, nlines, detail) in ex.map(validate, good):
+            if not ok:
+                ok2, _, detail2 = doctrace.validate_trace(chk, out, os.path.join(wd, "v2-" + os.path.basename(out)),
+                                                          f"reader-faults/{label}(recheck)", module="FaultTrace",
+                                                          timeout=1500)
+                if not ok2:
+                    chk.violation(detail2)
+                    continue
+            chk.cov["traces_validated_against_impl"] += 1
+            os.remove(out)
+    for j in jobs:
+        if os.path.exists(j[1]):
+            os.remove(j[1])
+    chk.phase("faults:deserializers", json_inputs=len(jl), msgpack_inputs=len(ml), events=events, fired=fired)
+    return events, fired
 
 
 def run(tier):
@@ -92,6 +181,9 @@ def run(tier):
         for p in parts:
             os.remove(p)
         chk.phase(f"faults:{name}", behaviours=n, events=events_total, fired=fired_total)
+    ev2, fired2 = reader_faults(chk, wd, quick)
+    events_total += ev2
+    fired_total += fired2
     chk.cov["evaluations"] = events_total
     chk.cov["distinct_nontrivial"] = fired_total
     chk.cov["rule"] = ("one evaluation = one run of a behaviour's last operation under one fault schedule (single "
@@ -102,6 +194,7 @@ def run(tier):
     chk.level = "model_checking"
     chk.assumptions += ["shrinking reallocations never fail (excluded by the property)",
                         "the exact residue of a failed operation is not prescribed: postconditions only",
-                        "deserialization inputs under failure are the four texts of DocumentMC here; richer inputs "
-                        "under failure are exercised by the reader checks"]
+                        "deserialization under failure: the four texts of DocumentMC inside document histories, and "
+                        "seeded JSON / MessagePack inputs (valid, malformed, filtered, repeated strings) read on their "
+                        "own with a failure at each of the first 40 (quick) / 400 (thorough) allocator calls"]
     return chk.finish()
